@@ -17,9 +17,10 @@
 use super::c01::yof;
 use crate::ctx::*;
 use chrono::{
-    DateTime, DurationRound, FixedOffset, NaiveDate, NaiveDateTime, NaiveTime, RoundingError, SubsecRound,
-    TimeDelta, TimeZone, Timelike, Utc,
+    DateTime, DurationRound, FixedOffset, Local, NaiveDate, NaiveDateTime, NaiveTime, Offset, RoundingError,
+    SubsecRound, TimeDelta, TimeZone, Timelike, Utc,
 };
+use std::collections::BTreeMap;
 
 const NS: i128 = 1_000_000_000;
 const I64_MIN: i128 = i64::MIN as i128;
@@ -98,6 +99,30 @@ impl Obs for DateTime<FixedOffset> {
     const VOP: &'static str = "rd.z";
     fn enc(&self) -> String {
         format!("{} {}", enc_naive(&self.naive_utc()), self.offset().local_minus_utc())
+    }
+}
+
+/// `DateTime<Utc>` as such (audit 2, LOW-3): the model's zone-aware value with offset 0
+impl Obs for DateTime<Utc> {
+    const KIND: &'static str = "utc";
+    fn utc_secs(&self) -> i64 {
+        self.timestamp()
+    }
+    fn subsec(&self) -> u32 {
+        self.timestamp_subsec_nanos()
+    }
+    fn off(&self) -> i32 {
+        0
+    }
+    fn since(&self, o: &Self) -> TimeDelta {
+        self.signed_duration_since(*o)
+    }
+    fn crate_stamp(&self) -> Option<Option<i64>> {
+        Some(self.timestamp_nanos_opt())
+    }
+    const VOP: &'static str = "rd.z";
+    fn enc(&self) -> String {
+        format!("{} 0", enc_naive(&self.naive_utc()))
     }
 }
 
@@ -341,6 +366,29 @@ fn case<T: Obs>(c: &mut Ctx, x: T, dur: TimeDelta, tag: &str) {
                         Ok(Err(RoundingError::TimestampExceedsLimit)) if !r_in => c.count(&format!("{nm}:result-left-window")),
                         other => c.fail(&what("not idempotent"), &format!("{ctxs} -> {:?} -> {:?}", r, other)),
                     }
+                } else {
+                    // leap-second input, the second call (Props/C17.lean `naive_result_leap_properties`,
+                    // `zoned_result_leap_properties`): if the move stays before the end of the leap second the
+                    // result is a fixed point (or, outside the window, exactly TimestampExceedsLimit); if it
+                    // passes the end, the result (stamp m - 10^9) is a fixed point exactly when the span
+                    // divides one second
+                    let m = op.spec(w, span);
+                    let passes_end = x.subsec() as i128 + (m - w) >= 2 * NS;
+                    let again = guard(|| op.call(r, dur));
+                    let same = matches!(&again, Ok(Ok(r2)) if *r2 == r);
+                    let in64 = |v: i128| (I64_MIN..=I64_MAX).contains(&v);
+                    let ok = if !passes_end {
+                        if in64(m) { same } else { again == Ok(Err(RoundingError::TimestampExceedsLimit)) }
+                    } else {
+                        same == (in64(m - NS) && NS % span == 0)
+                    };
+                    if !ok {
+                        c.fail(&what("leap-second input: the second call is not what the theorem says (fixed point iff the move stays in the leap second, or the span divides one second)"), &format!("{ctxs} -> {:?} -> {:?}", r, again));
+                    }
+                    c.count(&format!(
+                        "leap:second call:{}",
+                        if same { if passes_end { "fixed point past the end (span divides 1 s)" } else { "fixed point" } } else if passes_end { "moves again (past the end, span does not divide 1 s; F19)" } else { "result left the window" }
+                    ));
                 }
             }
         }
@@ -517,6 +565,214 @@ fn subsec_case<T: Copy + PartialEq + std::fmt::Debug + SubsecRound + Timelike>(
     }
 }
 
+/// what one `dst_zone_batch` hands back: correspondence cases, oracle failures, class counters, samples
+type ZoneOut = (Vec<(String, String)>, Vec<(String, String)>, BTreeMap<String, u64>, Vec<String>);
+
+/// OBSERVATION block (audit 2, MEDIUM-1; outside C17's quantifier, which says "offsets"): the operations on
+/// `DateTime<Local>` under a `TZ` whose offset changes (a fresh thread = a fresh zone cache), on instants
+/// within about one span of a transition.  Judged: what holds for ANY zone (Props/C17.lean `tz_vs_fixed`,
+/// `tz_result`): never a panic; an error exactly when the same call on the same instant at the FIXED offset
+/// the value carries errs, and the same one; otherwise the INSTANT of the result is that of the fixed-offset
+/// call, which is the input's instant moved by the distance from its wall-clock stamp to the specified
+/// multiple (i128 arithmetic); an unmoved value is returned as it is; a moved one carries the offset the
+/// zone prescribes at the new instant; and the wall-clock stamp of the result is the multiple plus the
+/// change of offset.  COUNTED, not judged (`observation:dst-zone …`): results whose wall-clock stamp is
+/// therefore not the specified multiple.
+fn dst_zone_batch(tz: &str, seed: u64, n_cases: usize) -> ZoneOut {
+    let old = std::env::var("TZ").ok();
+    std::env::set_var("TZ", tz);
+    let tzs = tz.to_string();
+    let out = std::thread::spawn(move || {
+        let mut ops: Vec<(String, String)> = vec![];
+        let mut fails: Vec<(String, String)> = vec![];
+        let mut cnt: BTreeMap<String, u64> = BTreeMap::new();
+        let mut samples: Vec<String> = vec![];
+        let mut st = seed | 1;
+        let mut rnd = move || {
+            st ^= st << 13;
+            st ^= st >> 7;
+            st ^= st << 17;
+            st
+        };
+        let off_at = |s: i64| -> i32 { Local.offset_from_utc_datetime(&DateTime::<Utc>::from_timestamp(s, 0).unwrap().naive_utc()).fix().local_minus_utc() };
+        // the transitions of the zone between 2007 and 2027 (first UTC second at the new offset)
+        let mut trans: Vec<i64> = vec![];
+        let (start, end, step) = (1_167_609_600i64, 1_798_761_600i64, 6 * 3600);
+        let mut t = start;
+        let mut prev = off_at(t);
+        while t < end {
+            let n = t + step;
+            let o = off_at(n);
+            if o != prev {
+                let (mut lo, mut hi) = (t, n); // off(lo) = prev, off(hi) != prev
+                while hi - lo > 1 {
+                    let mid = lo + (hi - lo) / 2;
+                    if off_at(mid) == prev {
+                        lo = mid;
+                    } else {
+                        hi = mid;
+                    }
+                }
+                trans.push(hi);
+            }
+            prev = o;
+            t = n;
+        }
+        *cnt.entry(format!("dst-zone:transitions found 2007..2027 in TZ={tzs}")).or_insert(0) += trans.len() as u64;
+        if trans.is_empty() {
+            // a zone without transitions in that period: the block degenerates to a fixed offset
+            trans.push(1_700_000_000);
+        }
+        let spans: [i64; 14] = [
+            1_000_000_000, 60_000_000_000, 900_000_000_000, 1_800_000_000_000, 3_600_000_000_000, 5_400_000_000_000, 7_200_000_000_000,
+            10_800_000_000_000, 21_600_000_000_000, 43_200_000_000_000, 86_400_000_000_000, 604_800_000_000_000, 3_600_000_000_001, 86_399_999_999_999,
+        ];
+        for i in 0..n_cases {
+            let tr = trans[(rnd() % trans.len() as u64) as usize];
+            let span: i64 = if i % 16 == 15 { 1 + (rnd() % 200_000_000_000_000) as i64 } else { spans[(rnd() % spans.len() as u64) as usize] };
+            let span_s = span / 1_000_000_000 + 1;
+            let delta: i64 = match rnd() % 8 {
+                0 => 0,
+                1 => -1,
+                2 => 1,
+                3 => span_s - 1,
+                4 => -span_s,
+                5 => span_s / 2,
+                _ => (rnd() % (2 * span_s as u64 + 1)) as i64 - span_s,
+            };
+            let nanos: u32 = if rnd() % 3 == 0 { 0 } else { (rnd() % 1_000_000_000) as u32 };
+            let dur = match i % 97 {
+                96 => TimeDelta::zero(),
+                95 => TimeDelta::nanoseconds(-span),
+                _ => TimeDelta::nanoseconds(span),
+            };
+            let (ds, dn) = raw_td(&dur);
+            let sp = td_ns(&dur);
+            let utc = DateTime::<Utc>::from_timestamp(tr + delta, nanos).unwrap();
+            let x: DateTime<Local> = match guard(|| Local.from_utc_datetime(&utc.naive_utc())) {
+                Ok(x) => x,
+                Err(()) => {
+                    fails.push(("dst-zone: Local.from_utc_datetime panicked".into(), format!("TZ={tzs} {:?}", utc)));
+                    continue;
+                }
+            };
+            let off = x.offset().fix().local_minus_utc();
+            let f: DateTime<FixedOffset> = x.with_timezone(&FixedOffset::east_opt(off).unwrap());
+            let w = (utc.timestamp() as i128 + off as i128) * NS + nanos as i128;
+            let u_line = utc.timestamp() as i128 * NS + nanos as i128;
+            for op in [OpK::Trunc, OpK::Round, OpK::Up] {
+                let nm = op.name();
+                let rl = guard(|| match op {
+                    OpK::Trunc => x.duration_trunc(dur),
+                    OpK::Round => x.duration_round(dur),
+                    OpK::Up => x.duration_round_up(dur),
+                });
+                let rf = guard(|| op.call(f, dur));
+                let ctxs = format!("TZ={tzs} {:?} (offset {off}, wall stamp {w}) .duration_{nm}({sp} ns)", x);
+                let roff = match &rl {
+                    Ok(Ok(r)) => guard(|| Local.offset_from_utc_datetime(&r.naive_utc()).fix().local_minus_utc()).unwrap_or(0),
+                    _ => 0,
+                };
+                ops.push((
+                    format!("rd.l.{} {} {} {} {} {}", nm, enc_naive(&utc.naive_utc()), off, roff, ds, dn),
+                    match &rl {
+                        Err(()) => "panic".to_string(),
+                        Ok(Err(e)) => err_name(*e).to_string(),
+                        Ok(Ok(r)) => format!("ok {} {}", enc_naive(&r.naive_utc()), r.offset().fix().local_minus_utc()),
+                    },
+                ));
+                match (rl, rf) {
+                    (Err(()), _) => fails.push((format!("dst-zone: {nm}: panicked"), ctxs)),
+                    (_, Err(())) => fails.push((format!("dst-zone: {nm}: the fixed-offset call panicked"), ctxs)),
+                    (Ok(Err(a)), Ok(Err(b))) => {
+                        *cnt.entry(format!("dst-zone:{nm}:error, as at the fixed offset")).or_insert(0) += 1;
+                        let want = if sp <= 0 { RoundingError::DurationExceedsLimit } else { RoundingError::TimestampExceedsLimit };
+                        if a != b || a != want {
+                            fails.push((format!("dst-zone: {nm}: another error than at the fixed offset / than the property says"), format!("{ctxs}: {:?} vs {:?}", a, b)));
+                        }
+                    }
+                    (Ok(Ok(r)), Ok(Ok(g))) => {
+                        if sp <= 0 {
+                            fails.push((format!("dst-zone: {nm}: Ok for a non-positive span"), ctxs.clone()));
+                            continue;
+                        }
+                        let m = op.spec(w, sp);
+                        let r_line = r.timestamp() as i128 * NS + r.timestamp_subsec_nanos() as i128;
+                        let r_off = r.offset().fix().local_minus_utc();
+                        let r_wall = r_line + r_off as i128 * NS;
+                        if r.naive_utc() != g.naive_utc() {
+                            fails.push((format!("dst-zone: {nm}: the instant of the result differs from that of the same call at the fixed offset"), format!("{ctxs} -> {:?} vs {:?}", r, g)));
+                        }
+                        if r_line != u_line + (m - w) {
+                            fails.push((format!("dst-zone: {nm}: the instant of the result is not the input's instant moved by the wall-clock distance to the specified multiple"), format!("{ctxs} -> {:?}: moved {}, specified {}", r, r_line - u_line, m - w)));
+                        }
+                        if m == w && (r != x || r_off != off) {
+                            fails.push((format!("dst-zone: {nm}: a multiple of the span was changed"), format!("{ctxs} -> {:?}", r)));
+                        }
+                        if m != w && r_off != roff {
+                            fails.push((format!("dst-zone: {nm}: the result does not carry the offset the zone prescribes at its instant"), format!("{ctxs} -> {:?}, zone says {roff}", r)));
+                        }
+                        if r_wall != m + (r_off - off) as i128 * NS {
+                            fails.push((format!("dst-zone: {nm}: wall-clock stamp of the result is not the multiple plus the change of offset"), format!("{ctxs} -> {:?}", r)));
+                        }
+                        if r_wall != m {
+                            let key = format!("observation:dst-zone {nm}: wall-clock stamp of the result is not the specified multiple (the zone's offset at the result differs from the offset at the input)");
+                            let e = cnt.entry(key).or_insert(0);
+                            *e += 1;
+                            if *e == 1 && samples.len() < 2 {
+                                samples.push(format!("observation:dst-zone TZ={tzs} {:?}.duration_{}({} ns) = {:?}: wall-clock stamp {} -> {}, specified multiple {}", x, if nm == "up" { "round_up" } else { nm }, sp, r, w, r_wall, m));
+                            }
+                        } else {
+                            *cnt.entry(format!("dst-zone:{nm}: wall-clock stamp of the result is the specified multiple{}", if r_off != off { " (?)" } else { "" })).or_insert(0) += 1;
+                        }
+                    }
+                    (a, b) => fails.push((format!("dst-zone: {nm}: Ok/Err differs from the same call at the fixed offset"), format!("{ctxs}: {:?} vs {:?}", a, b))),
+                }
+            }
+            // SubsecRound in the zone: the same instant as at the fixed offset (Props/C17.lean `tz_subsecs_vs_fixed`)
+            if i % 4 == 0 {
+                let digits = (rnd() % 10) as u16;
+                for round in [false, true] {
+                    let nm = if round { "rsub" } else { "tsub" };
+                    let rl = guard(|| if round { x.round_subsecs(digits) } else { x.trunc_subsecs(digits) });
+                    let rf = guard(|| if round { f.round_subsecs(digits) } else { f.trunc_subsecs(digits) });
+                    let roff = match &rl {
+                        Ok(r) => guard(|| Local.offset_from_utc_datetime(&r.naive_utc()).fix().local_minus_utc()).unwrap_or(0),
+                        _ => 0,
+                    };
+                    ops.push((
+                        format!("rd.l.{} {} {} {} {}", nm, enc_naive(&utc.naive_utc()), off, roff, digits),
+                        match &rl {
+                            Err(()) => "panic".to_string(),
+                            Ok(r) => format!("{} {}", enc_naive(&r.naive_utc()), r.offset().fix().local_minus_utc()),
+                        },
+                    ));
+                    match (rl, rf) {
+                        (Ok(r), Ok(g)) => {
+                            *cnt.entry(format!("dst-zone:{nm}")).or_insert(0) += 1;
+                            if r.naive_utc() != g.naive_utc() {
+                                fails.push((format!("dst-zone: {nm}: the instant of the result differs from that of the same call at the fixed offset"), format!("TZ={tzs} {:?} to {digits} digits -> {:?} vs {:?}", x, r, g)));
+                            }
+                            if r.offset().fix().local_minus_utc() != off {
+                                *cnt.entry(format!("observation:dst-zone {nm}: the result is at another offset than the input (carry across a transition)")).or_insert(0) += 1;
+                            }
+                        }
+                        (a, b) => fails.push((format!("dst-zone: {nm}: panicked"), format!("TZ={tzs} {:?} to {digits} digits -> {:?} vs {:?}", x, a, b))),
+                    }
+                }
+            }
+        }
+        (ops, fails, cnt, samples)
+    })
+    .join()
+    .unwrap_or_else(|_| (vec![], vec![("the DateTime<Local> batch died".into(), tz.to_string())], BTreeMap::new(), vec![]));
+    match old {
+        Some(v) => std::env::set_var("TZ", v),
+        None => std::env::remove_var("TZ"),
+    }
+    out
+}
+
 pub fn run(c: &mut Ctx) {
     let specials = special_spans();
 
@@ -550,6 +806,7 @@ pub fn run(c: &mut Ctx) {
             if let Some((n, f)) = mk(w, off) {
                 case(c, n, dur, "special");
                 case(c, f, dur, "special");
+                case(c, n.and_utc(), dur, "special");
             }
         }
     }
@@ -562,7 +819,9 @@ pub fn run(c: &mut Ctx) {
         let off = gen_off(c);
         let dur = TimeDelta::nanoseconds(span);
         if let Some((n, f)) = mk(w, off) {
-            if i % 2 == 0 {
+            if i % 8 == 7 {
+                case(c, n.and_utc(), dur, "gen");
+            } else if i % 2 == 0 {
                 case(c, n, dur, "gen");
             } else {
                 case(c, f, dur, "gen");
@@ -690,6 +949,7 @@ pub fn run(c: &mut Ctx) {
         }
         for d in &good {
             case(c, base.naive_utc(), *d, "range-end");
+            case(c, base, *d, "range-end");
         }
     }
 
@@ -700,7 +960,19 @@ pub fn run(c: &mut Ctx) {
         let secs = c.rng.range(-9_223_372_000 / 60, 9_223_372_000 / 60) * 60 + 59;
         let frac = 1_000_000_000 + if c.rng.chance(1, 3) { *c.rng.pick(&[0u32, 1, 499_999_999, 500_000_000, 500_000_001, 999_999_999]) } else { c.rng.nanos() };
         if let Some(u) = DateTime::<Utc>::from_timestamp(secs, frac) {
-            let off = if c.rng.chance(1, 2) { 0 } else { (c.rng.range(-1439, 1439) * 60) as i32 };
+            // offsets that are not whole minutes too: the leap-second field then sits on a wall-clock second
+            // other than :59 (audit 2, LOW-3)
+            let off = match c.rng.below(4) {
+                0 => 0,
+                1 | 2 => (c.rng.range(-1439, 1439) * 60) as i32,
+                _ => gen_off(c),
+            };
+            if off % 60 != 0 {
+                c.count("leap:field viewed at an offset that is not a whole minute");
+            }
+            if c.rng.chance(1, 8) {
+                case(c, u, TimeDelta::nanoseconds(span), "leap");
+            }
             case(c, u.naive_utc(), TimeDelta::nanoseconds(span), "leap");
             case(c, u.with_timezone(&FixedOffset::east_opt(off).unwrap()), TimeDelta::nanoseconds(span), "leap");
         }
@@ -744,6 +1016,51 @@ pub fn run(c: &mut Ctx) {
         case(c, x, TimeDelta::minutes(1), "leap");
     }
 
+    // ---- OBSERVATION: zones whose offset changes (DateTime<Local>; outside the quantifier) ---------------
+    {
+        // the audit's instance, replayed on the crate (Props/C17.lean `dst_zone_trunc_is_not_wall_clock_midnight`)
+        let old = std::env::var("TZ").ok();
+        std::env::set_var("TZ", "America/New_York");
+        let got = std::thread::spawn(|| {
+            let u = NaiveDate::from_ymd_opt(2024, 11, 3).unwrap().and_hms_opt(17, 0, 0).unwrap();
+            guard(|| {
+                let x = Local.from_utc_datetime(&u);
+                let r = x.duration_trunc(TimeDelta::days(1));
+                (x.offset().fix().local_minus_utc(), r.map(|r| (r.naive_utc(), r.offset().fix().local_minus_utc())))
+            })
+        })
+        .join()
+        .unwrap_or(Err(()));
+        match old {
+            Some(v) => std::env::set_var("TZ", v),
+            None => std::env::remove_var("TZ"),
+        }
+        let want = NaiveDate::from_ymd_opt(2024, 11, 3).unwrap().and_hms_opt(5, 0, 0).unwrap();
+        if got == Ok((-18000, Ok((want, -14400)))) {
+            c.count("observation:dst-zone America/New_York 2024-11-03 12:00 -05:00 .duration_trunc(1 day) = 01:00 -04:00 (reproduced)");
+        } else {
+            c.count("dst-zone:America/New_York example not reproduced (zone data differ?)");
+            c.sample(&format!("dst-zone example: got {:?}", got));
+        }
+        let per_zone = c.n(400, 6000);
+        for tz in ["America/New_York", "Europe/London", "Australia/Lord_Howe", "America/St_Johns", "Pacific/Apia", "Africa/Casablanca", "Asia/Kolkata"] {
+            let seed = c.rng.next();
+            let (ops, fails, cnt, samples) = dst_zone_batch(tz, seed, per_zone);
+            for (line, got) in &ops {
+                c.op(line, got);
+            }
+            for (what, detail) in &fails {
+                c.fail(what, detail);
+            }
+            for (k, n) in &cnt {
+                c.count_n(k, *n);
+            }
+            for t in &samples {
+                c.sample(t);
+            }
+        }
+    }
+
     // ---- SubsecRound ----------------------------------------------------------------------------------
     for d in 0..=u16::MAX as u32 {
         // every u16 digit count
@@ -773,8 +1090,25 @@ pub fn run(c: &mut Ctx) {
         v.retain(|&x| x < 1_000_000_000);
         v
     };
-    let date = NaiveDate::from_ymd_opt(2016, 12, 31).unwrap();
+    let dates: Vec<NaiveDate> = {
+        let mut v = vec![NaiveDate::from_ymd_opt(2016, 12, 31).unwrap()];
+        for (y, m, d) in [(1970, 1, 1), (1969, 12, 31), (2000, 2, 29), (1900, 2, 28), (2262, 4, 11), (1677, 9, 21), (1, 1, 1), (0, 12, 31), (-1, 1, 1), (9999, 12, 31), (10000, 1, 1)] {
+            v.push(NaiveDate::from_ymd_opt(y, m, d).unwrap());
+        }
+        v.extend([NaiveDate::MIN.succ_opt().unwrap(), NaiveDate::MAX.pred_opt().unwrap(), NaiveDate::MAX, NaiveDate::MIN]);
+        v
+    };
     let subsec_all = |c: &mut Ctx, frac: u32, leap: bool, digits: u16, which: u64| {
+        // the date varies (audit 2, LOW-3): 2016-12-31 half of the time, else a special or a random date
+        let date = match c.rng.below(4) {
+            0 | 1 => dates[0],
+            2 => *c.rng.pick(&dates),
+            _ => NaiveDate::from_yo_opt(c.rng.range(-262_142, 262_141) as i32, c.rng.range(1, 365) as u32).unwrap_or(dates[0]),
+        };
+        // the very ends of the range are the business of the directed block below (documented `+` panic);
+        // here a date within a day of them is used only with offsets that keep the value representable
+        let date = if date == NaiveDate::MAX || date == NaiveDate::MIN { dates[0] } else { date };
+        c.count(if date == dates[0] { "subsec:date 2016-12-31" } else { "subsec:another date" });
         let (h, m, s) = if leap { (23, 59, 59) } else { (c.rng.below(24) as u32, c.rng.below(60) as u32, c.rng.below(60) as u32) };
         let (h, m, s) = if !leap && c.rng.chance(1, 6) { (23, 59, 59) } else { (h, m, s) };
         let f = if leap { frac + 1_000_000_000 } else { frac };
@@ -785,9 +1119,16 @@ pub fn run(c: &mut Ctx) {
         match which % 3 {
             0 => subsec_case(c, t, digits, |x| x.num_seconds_from_midnight() as i64, 86_400, "rd.t", |x| format!("{} {}", x.num_seconds_from_midnight(), x.nanosecond())),
             1 => subsec_case(c, date.and_time(t), digits, |x| x.and_utc().timestamp(), i64::MAX, "rd.n", enc_naive),
+            _ if which % 12 == 2 => {
+                // `DateTime<Utc>` as such
+                subsec_case(c, date.and_time(t).and_utc(), digits, |x| x.timestamp(), i64::MAX, "rd.z", |x: &DateTime<Utc>| x.enc())
+            }
             _ => {
+                // any offset, also for leap-second fields (not only whole minutes)
                 let off = gen_off(c);
-                let off = if leap { off / 60 * 60 } else { off };
+                if leap && off % 60 != 0 {
+                    c.count("subsec:leap field viewed at an offset that is not a whole minute");
+                }
                 let fo = FixedOffset::east_opt(off).unwrap();
                 let dt = fo.from_utc_datetime(&date.and_time(t));
                 subsec_case(c, dt, digits, |x| x.timestamp(), i64::MAX, "rd.z", |x: &DateTime<FixedOffset>| x.enc())
